@@ -204,6 +204,59 @@ def work(job):
     return res
 
 
+def large_db():
+    """Inputs that cross the executors' chunk size (1024 rows): keys with NULLs and duplicates, deterministic."""
+    t1 = [[None if i % 17 == 0 else (i * 7) % 401, None if i % 5 == 0 else i] for i in range(2600)]
+    t2 = [[None if i % 13 == 0 else (i * 11) % 397, None if i % 7 == 0 else 10000 + i] for i in range(1300)]
+    return {'1': t1, '2': t2}
+
+
+def run_large(rep, thorough, families):
+    """Every implementation on inputs spanning several chunks, against SQLite (no model: R's encoding is for small K)."""
+    db = large_db()
+    setup = list(DDL)
+    for t in ('1', '2'):
+        rows = db[t]
+        for i in range(0, len(rows), 500):
+            setup.append('insert into t%s values %s' % (t, ', '.join('(%s, %s)' % (lit(a), lit(b)) for a, b in rows[i:i + 500])))
+    cs = [c for c in cases(thorough) if c[1] in families and c[1] != 'join2' and not c[0].startswith(('topn:c1', 'order:c1', 'limit:'))]
+    plans = []
+    for c in cs:
+        for impl, p in c[2].items():
+            if c[1] == 'join' and impl == 'nested-loop' and c[0].split(':')[1] not in ('inner', 'left_outer'):
+                continue
+            plans.append((c, impl, p))
+    out, rc, err = rl('planrun', {'setup': setup, 'plans': [p for _, _, p in plans]}, timeout=1200)
+    got = {o['plan']: o for o in out if 'plan' in o}
+    n = ok = 0
+    for c, impl, p in plans:
+        name, family, impls, sql, ordered = c
+        o = got.get(p)
+        if o is None:
+            rep.fail_inconclusive('large-input probe did not run for %s via %s: %s' % (name, impl, err[-200:]))
+            continue
+        if not o.get('ok') or o.get('panicked'):
+            rep.skip('%s via %s on chunk-crossing input' % (name, impl), 'not executable: %s' % (o.get('err') or 'panic'))
+            continue
+        ref = sqlite_rows(db, sql)
+        if isinstance(ref, str):
+            continue
+        n += 1
+        a, b = o['rows'], ref
+        same = (a == b) if ordered else (canon(a) == canon(b))
+        if same:
+            ok += 1
+            continue
+        key = 'executor:%s:%s:chunk-crossing-input' % (name.split(':')[0] + ':' + name.split(':')[1] if name.startswith(('join', 'agg')) else name.split(':')[0], impl)
+        extra = [r for r in a if r not in b][:3]
+        missing = [r for r in b if r not in a][:3]
+        what = 'the %s implementation of %s on inputs of 2600 / 1300 rows (several chunks, NULL and duplicate keys) returns %d rows, SQLite %d; e.g. only in risinglight %s, only in SQLite %s' % (
+            impl, name, len(a), len(b), json.dumps(extra), json.dumps(missing))
+        outc = rep.counterexample(key, what[:600], {'case': name, 'impl': impl, 'plan': p, 'sql': sql, 'rows_engine': len(a), 'rows_sqlite': len(b)}, True)
+        rep.obligation(outc == 'known')
+    rep.cov['executor_conformance_large'] = {'runs_compared': n, 'agreeing': ok, 'input': 't1 2600 rows, t2 1300 rows, keys mod ~400 with NULLs; compared with SQLite'}
+
+
 def run(rep, prop, thorough, families=('join', 'join2', 'agg', 'topn')):
     t0 = time.time()
     contracts = probe()
@@ -264,4 +317,5 @@ def run(rep, prop, thorough, families=('join', 'join2', 'agg', 'topn')):
                                        'domain': 'tables of 0-%d rows, keys in {NULL,0,1}, payloads NULL or distinct small integers; every implementation of every join type, aggregation, distinct, sort, top-N and limit' % (3 if thorough else 2),
                                        'note': 'exhaustive enumeration of a small abstract domain on the real build (not a solver decision): validates the operator contracts the solver-based checks rely on',
                                        'wall_s': round(time.time() - t0, 1)}
+    run_large(rep, thorough, families)
     rep.cov['trusted_base'] = list(rep.cov.get('trusted_base', [])) + ['python sqlite3 %s as the reference reading of each operator in the executor conformance probes' % sqlite3.sqlite_version]
